@@ -1092,6 +1092,11 @@ fn scripted_prefix(k: u64) -> Vec<String> {
         7 => &["CREATE TABLE T0 (A INTEGER, B INTEGER)", "INSERT INTO T0 VALUES (11, 21)", "CREATE INDEX IX2 ON T0 (B)", "ALTER TABLE T0 DROP COLUMN B", "ALTER TABLE T0 ADD CONSTRAINT U1 UNIQUE (A)", "INSERT INTO T0 VALUES (12)"],
         // ALTER .. ADD CONSTRAINT through a case variant of the table name
         8 => &["CREATE TABLE T0 (A INTEGER, B INTEGER)", "ALTER TABLE \"t0\" ADD CONSTRAINT U1 UNIQUE (A)", "ALTER TABLE \"t0\" ADD PRIMARY KEY (B)"],
+        // a UNIQUE index of the case twin "t0" (filled through RENAME) refuses a row for T0: INSERT's phase 5
+        // finds indexes by upper-cased table name
+        9 => &["CREATE TABLE T1 (A INTEGER, B INTEGER)", "INSERT INTO T1 VALUES (11, 21)", "ALTER TABLE T1 RENAME TO \"t0\"", "CREATE UNIQUE INDEX IX1 ON \"t0\" (B)", "CREATE TABLE T0 (A INTEGER, B INTEGER)", "INSERT INTO T0 VALUES (12, 21)", "INSERT INTO T0 VALUES (13, 22)"],
+        // CREATE UNIQUE INDEX over duplicate keys is refused and leaves no catalog entry
+        10 => &["CREATE TABLE T2 (A INTEGER, B INTEGER)", "INSERT INTO T2 VALUES (11, 21), (12, 21)", "CREATE UNIQUE INDEX IX2 ON T2 (B)", "CREATE UNIQUE INDEX IX2 ON T2 (A)", "DROP INDEX IX2", "CREATE UNIQUE INDEX IX2 ON T2 (B, A)"],
         // RENAME of an indexed table, then a new table under the old name
         _ => &["CREATE TABLE T0 (A INTEGER, B INTEGER)", "INSERT INTO T0 VALUES (11, 21)", "CREATE INDEX IX0 ON T0 (B)", "ALTER TABLE T0 RENAME TO T1", "CREATE TABLE T0 (A INTEGER, B INTEGER)", "INSERT INTO T0 VALUES (12, 22)"],
     };
@@ -1131,7 +1136,7 @@ fn stale_cache_hit(st: &Stmt, before: &Obs) -> bool {
     })
 }
 
-fn retained_columns_unchanged(before: &Obs, after: &Obs, st: &Stmt) -> Option<String> {
+fn retained_columns_unchanged(before: &Obs, after: &Obs, st: &Stmt, ok: bool) -> Option<String> {
     // ALTER TABLE touches only the named column: every stored column that exists (by name) before and
     // after keeps its values, the number of rows stays, other tables are untouched
     let (old_key, new_key) = match st {
@@ -1165,7 +1170,7 @@ fn retained_columns_unchanged(before: &Obs, after: &Obs, st: &Stmt) -> Option<St
             }
         }
         let renamed: Option<(&str, &str)> = match st {
-            Stmt::ChangeColumn { old, c, .. } if *k == old_key => Some((old.as_str(), c.name.as_str())),
+            Stmt::ChangeColumn { old, c, .. } if ok && *k == old_key => Some((old.as_str(), c.name.as_str())),
             _ => None,
         };
         for (bi, bc) in bs.cols.iter().enumerate() {
@@ -1210,7 +1215,7 @@ fn run_history(seed: u64, id: u64, thorough: bool, sum: &mut Summary, log: &mut 
     let mut pos = 0;
     // one history in ten starts with a scripted prefix that walks into one specific known class (so that
     // every class, and the model's path through it, is exercised in every run); it continues at random
-    let mut script: Vec<String> = if id % 10 == 9 && !ci_mode { scripted_prefix((id / 10) % 10) } else { Vec::new() };
+    let mut script: Vec<String> = if id % 10 == 9 && !ci_mode { scripted_prefix((id / 10) % 12) } else { Vec::new() };
     script.reverse();
     while steps.len() < len && pos < len * 3 {
         pos += 1;
@@ -1289,7 +1294,7 @@ fn run_history(seed: u64, id: u64, thorough: bool, sum: &mut Summary, log: &mut 
                 // ALTER keeps the data of the retained columns
                 let is_alter = stmt.kind().starts_with("alter-");
                 if is_alter {
-                    if let Some(w) = retained_columns_unchanged(&prev, &now, &stmt) {
+                    if let Some(w) = retained_columns_unchanged(&prev, &now, &stmt, ok) {
                         let slug = match &stmt {
                             Stmt::RenameTable { .. } if !ok => "rename-table-not-null-rows-lost",
                             other if stale_cache_hit(other, &prev) => "alter-stale-column-cache-resolves-other-column",
